@@ -188,6 +188,8 @@ def build(v, env, ghost_fn):
             for u in v.get('universe', []):
                 _KB.key(v['$set'], u)
             return {_KB.key(v['$set'], k) for k in v['items']}
+        if '$kseq' in v and v.get('pairs'):      # zipseqs: tuple[tuple[str, K], ...]
+            return tuple((f'kw{i}', _KB.key(v['$kseq'], k)) for i, k in enumerate(v['items']))
         if '$kseq' in v:
             return tuple(_KB.key(v['$kseq'], k) for k in v['items'])
         if '$numstr' in v:
